@@ -69,7 +69,10 @@ fn gen_textures(r: &mut Rng, kind: &str, max_side: usize) -> Vec<Tex> {
             let w = r.range(1, 64);
             let h = r.range(1, 64);
             let size = texpack::ci8_size(w, h);
-            v.push(Tex { name: String::new(), width: w, height: h, format: 9, payload: r.bytes(size), palette: r.bytes(512) });
+            // palettes of 1..=256 entries (not only multiples of 16); every index stays inside the palette
+            let entries = if r.chance(1, 2) { 256 } else { r.range(1, 256) };
+            let payload: Vec<u8> = (0..size).map(|_| r.below(entries) as u8).collect();
+            v.push(Tex { name: String::new(), width: w, height: h, format: 9, payload, palette: r.bytes(entries * 2) });
         } else {
             let sides = [8usize, 8, 16, 16, 32, max_side];
             let w = *r.pick(&sides);
